@@ -368,6 +368,13 @@ class Interp:
             return a * b
         if op is ast.Mult and isinstance(b, (list, bytes, str, tuple)) and isinstance(a, int):
             return a * b
+        if op is ast.Mult and isinstance(a, bytes) and isinstance(b, SInt) and len(a) == 1:
+            nn = mk(z3.If(zint(b) < 0, z3.IntVal(0), zint(b)))
+            return Seq('bytes', zint(nn) if not isinstance(nn, int) else nn, at=lambda k, c=a[0]: c)
+        if op is ast.Add and isinstance(a, str) and isinstance(b, NumStr):
+            return FmtS(a, b.n, '')
+        if op is ast.Add and isinstance(a, FmtS) and isinstance(b, str):
+            return FmtS(a.prefix, a.n, a.suffix + b)
         if op is ast.Mult and isinstance(a, str) and isinstance(b, SInt) and len(a) == 1:
             return RepStr('', a, b)
         if op is ast.Add and isinstance(a, str) and isinstance(b, RepStr):
@@ -685,6 +692,8 @@ class Interp:
             if name == 'errno' or name == 'strerror': return Opaque(name)
             return NativeMethod(base, name)
         if isinstance(base, Opaque):
+            if name in base.info.get('attrs_set', {}):
+                return base.info['attrs_set'][name]
             if self.cfg.opaque_attr is not None:
                 r = self.cfg.opaque_attr(self, base, name)
                 if r is not NotImplemented:
@@ -904,15 +913,19 @@ class Interp:
         if len(e.generators) == 1 and not e.generators[0].ifs:
             g = e.generators[0]
             src = self.ev(g.iter, fr)
-            symsrc = (isinstance(src, Seq) and src.items is None) or (isinstance(src, RangeV) and not src.concrete())
+            if isinstance(src, ChunkList):
+                src = ChunkSeqView(src)
+            symsrc = (isinstance(src, Seq) and src.items is None) or (isinstance(src, RangeV) and not src.concrete()) or isinstance(src, ChunkSeqView)
             if symsrc and isinstance(g.target, ast.Name):
                 # map over a symbolic-length source: the element expression is evaluated once for a fresh
                 # index j under 0 <= j < n (no fork, no raise allowed there), then j is substituted (DESIGN 2.2)
                 st = self.st
-                n = src.length() if isinstance(src, Seq) else src.count()
+                n = src.length() if isinstance(src, (Seq, ChunkSeqView)) else src.count()
                 j = z3.Int(st.fresh_name('cj'))
                 st.solver.push()
                 st.solver.add(j >= 0, j < zint(n))
+                nqf = len(st.qf)
+                st.qf.extend([j >= 0, j < zint(n)])      # visible to the cheap simplifier while the element is evaluated
                 try:
                     f3 = Frame(fr.module, fr.cls, fr.func, {g.target.id: src.at(mk(j))}, parent=fr)
                     val = self.ev_noraise(e.elt, f3, forced=True)
@@ -920,6 +933,7 @@ class Interp:
                     raise Unsupported('comprehension element may fork or raise for some index; needs a loop instead')
                 finally:
                     st.solver.pop()
+                    del st.qf[nqf:]
                 if isinstance(val, Seq) and val.is_bytes() and val.items is not None:
                     terms = [zint(x) for x in val.items]
                     def chunk(k, terms=terms, j=j):
@@ -1790,6 +1804,18 @@ class RepStr:
         self.prefix, self.ch, self.n = prefix, ch, n
 
 
+class NumStr:
+    """str(n) for a symbolic integer n"""
+    def __init__(self, n):
+        self.n = n
+
+
+class FmtS:
+    """struct format prefix + str(n) + suffix with symbolic n (add_string: byteorder + str(len(value)) + 's')"""
+    def __init__(self, prefix, n, suffix):
+        self.prefix, self.n, self.suffix = prefix, n, suffix
+
+
 class ChunkList:
     """list of n byte strings of the same concrete length m: element(k) -> list of m byte values
     (generator of struct.pack results joined by bytes.join)"""
@@ -1826,6 +1852,18 @@ def _call_closure(self, c, args, kw):
         return _call_nested(self, c, args, kw)
     return _orig_call_closure(self, c, args, kw)
 Interp.call_closure = _call_closure
+
+
+class ChunkSeqView:
+    """a ChunkList seen as a sequence of byte strings (iteration source of a comprehension)"""
+    def __init__(self, cl):
+        self.cl = cl
+
+    def length(self):
+        return mk(zint(self.cl.n)) if not isinstance(self.cl.n, int) else self.cl.n
+
+    def at(self, k):
+        return Seq('bytes', None, items=self.cl.fn(k))
 
 
 class RangeV:
